@@ -41,35 +41,35 @@ type curCase struct {
 
 // Run is the per-process monitor state.
 type Run struct {
-	Prop    string
-	Tier    string
-	Seed    uint64
-	Shard   int
-	NShards int
+	Prop     string
+	Tier     string
+	Seed     uint64
+	Shard    int
+	NShards  int
 	Thorough bool
 
-	mu         sync.Mutex
-	evals      int64
-	outcomes   map[string]int64
-	distinct   map[uint64]struct{}
-	samples    []any
-	sampleSeen map[string]int
-	violations []Violation
-	violCount  int64
-	violKeys   map[string]bool
-	notes      map[string]any
+	mu          sync.Mutex
+	evals       int64
+	outcomes    map[string]int64
+	distinct    map[uint64]struct{}
+	samples     []any
+	sampleSeen  map[string]int
+	violations  []Violation
+	violCount   int64
+	violKeys    map[string]bool
+	notes       map[string]any
 	assumptions []string
 	harnessFail []string
-	rule       string
-	exhaustive bool
+	rule        string
+	exhaustive  bool
 
-	cur     atomic.Pointer[curCase]
-	serial  atomic.Uint64
-	trace   *os.File
-	out     string
-	replayDir string
-	start   time.Time
-	CPULimit time.Duration
+	cur        atomic.Pointer[curCase]
+	serial     atomic.Uint64
+	trace      *os.File
+	out        string
+	replayDir  string
+	start      time.Time
+	CPULimit   time.Duration
 	replayOnly string
 }
 
@@ -88,7 +88,7 @@ func Start(prop string) *Run {
 		Prop: prop, Tier: os.Getenv("VERIF_TIER"), Shard: envInt("VERIF_SHARD", 0), NShards: envInt("VERIF_NSHARDS", 1),
 		outcomes: map[string]int64{}, distinct: map[uint64]struct{}{}, sampleSeen: map[string]int{}, notes: map[string]any{},
 		violKeys: map[string]bool{},
-		out: os.Getenv("VERIF_OUT"), replayDir: os.Getenv("VERIF_REPLAYDIR"), start: time.Now(), CPULimit: 20 * time.Second,
+		out:      os.Getenv("VERIF_OUT"), replayDir: os.Getenv("VERIF_REPLAYDIR"), start: time.Now(), CPULimit: 20 * time.Second,
 		replayOnly: os.Getenv("VERIF_REPLAY_KEY"),
 	}
 	if r.Tier == "" {
@@ -369,7 +369,7 @@ func (g *Rand) Intn(n int) int {
 	}
 	return int(g.U64() % uint64(n))
 }
-func (g *Rand) Bool() bool   { return g.U64()&1 == 1 }
+func (g *Rand) Bool() bool               { return g.U64()&1 == 1 }
 func (g *Rand) Chance(num, den int) bool { return g.Intn(den) < num }
 func (g *Rand) Bytes(n int) []byte {
 	b := make([]byte, n)
@@ -381,9 +381,10 @@ func (g *Rand) Bytes(n int) []byte {
 	}
 	return b
 }
+
 // Read implements io.Reader (never fails) so that a Rand can be an entropy source.
 func (g *Rand) Read(p []byte) (int, error) { copy(p, g.Bytes(len(p))); return len(p), nil }
-func Pick[T any](g *Rand, xs []T) T { return xs[g.Intn(len(xs))] }
+func Pick[T any](g *Rand, xs []T) T        { return xs[g.Intn(len(xs))] }
 func (g *Rand) Perm(n int) []int {
 	p := make([]int, n)
 	for i := range p {
